@@ -3,7 +3,8 @@
     (i)  [c_model]: the Gallina model of Equil/Model.v run at [OpsF] (binary64, same
          operation order as the Rust code) on the inputs the Rust code received, compared
          with what the Rust code left in [solver.data.{P,q,A,b,equilibration}].
-         Code 0 = every number bit-identical, 1 = some bit differs (no tolerance).
+         Code 0 = bit-identical (level A, information); 3 = not bit-identical but d, e, c within
+         relative 2^-40 of the model's (operation order differs: a note); 1 = scalings differ.
     (ii) [c_props]: the statement of the property evaluated on the *Rust output alone*, in
          exact dyadic arithmetic (every finite binary64 is a dyadic): data = returned
          scalings applied to the user's data within the stated relative tolerance, bounds
@@ -83,14 +84,33 @@ Definition model_fields (f : float -> float -> bool) (o : out float) (p : @pdata
 Definition model_rel (f : float -> float -> bool) (o : out float) (p : @pdata float) : bool :=
   forallb (fun b => b) (model_fields f o p).
 
-(** 0 = every number the implementation left in solver.data.{P,q,A,b,equilibration} has the bit
-    pattern the model computes at binary64; 1 = some bit differs *)
+(** relative 2^-40 (or the same bits: covers infinities and NaN) *)
+Definition fclose40 (x y : float) : bool :=
+  fbits_eq x y ||
+  (let d := PrimFloat.abs (PrimFloat.sub x y) in
+   let m := if PrimFloat.ltb (PrimFloat.abs x) (PrimFloat.abs y) then PrimFloat.abs y else PrimFloat.abs x in
+   PrimFloat.leb d (PrimFloat.mul 0x1p-40%float m)).
+Definition scalings_close (o : out float) (p : @pdata float) : bool :=
+  list_all2 fclose40 (od o) (ed (peq p)) && list_all2 fclose40 (oe o) (ee (peq p))
+  && fclose40 (oc o) (ec (peq p)).
+
+(** Two levels.
+    A (information): every number the implementation left in solver.data.{P,q,A,b,equilibration}
+      has the bit pattern the model computes at binary64 (same operation order as transcribed).
+    B (binding, this part of it): the scalings d, e, c agree with the model's within relative
+      2^-40 -- re-associating floating-point operations moves them by ulps only, a different
+      algorithm (other norms, other clip, missing square root ...) by much more.  The rest of B
+      is [c_props] below: the statement of the property on the implementation's own output.
+    Codes: 0 = A holds; 3 = A fails, scalings within 2^-40 (operation order differs from the
+    transcription -- reported in a note, not a violation, provided [c_props] holds);
+    1 = scalings differ from the model's beyond 2^-40. *)
 Definition c_model (en : bool) (iters : N) (smin smax : float) (cs : list (ckind * N))
            (P : @raw float) (q : list float) (A : @raw float) (b : list float)
            (o : out float) : N :=
   let S := mkSettings en (N.to_nat iters) smin smax in
   let p := setup OpsF S (mkcones cs) (decode P) q (decode A) b in
-  if model_rel fbits_eq o p then 0%N else 1%N.
+  if model_rel fbits_eq o p then 0%N
+  else if scalings_close o p then 3%N else 1%N.
 (** diagnosis of a mismatch: which of P, A, q, b, d, dinv, e, einv, c differ bitwise, and which
     differ by more than relative 1e-13 *)
 Definition c_model_diag (en : bool) (iters : N) (smin smax : float) (cs : list (ckind * N))
@@ -115,9 +135,11 @@ Definition dpos (x : dy) : bool := dltb d0 x.
 
 Definition all_upto (n : nat) (f : nat -> bool) : bool := forallb f (seq 0 n).
 
-(** tolerance (in units of 2^-52) of the data identities: each Ruiz pass applies at most six
-    roundings of 2^-53 to the quotient data/(product of scalings) *)
-Definition data_tol (iters : N) : Z := (Z.max 64 (4 * Z.of_N iters + 8))%Z.
+(** tolerance (in units of 2^-52) of the data identities: relative 2^-48 up to 8 passes, then one
+    more 2^-52 per pass (each pass applies at most six roundings of 2^-53 to the quotient
+    data / (product of stored scalings); in practice the increments become exactly 1 after a few
+    passes: the largest discrepancy seen in 35k problems, 50 passes included, is below 2^-48) *)
+Definition data_tol (iters : N) : Z := (Z.max 16 (Z.of_N iters + 8))%Z.
 
 Definition data_ok (k : Z) (P : @csc dy) (q : list dy) (A : @csc dy) (b : list dy)
            (P' : @csc dy) (q' : list dy) (A' : @csc dy) (b' : list dy)
@@ -134,7 +156,7 @@ Definition data_ok (k : Z) (P : @csc dy) (q : list dy) (A : @csc dy) (b : list d
 
 Definition inverses_ok (d dinv : list dy) : bool :=
   (length d =? length dinv) &&
-  forallb (fun p => dclose 4 (dmul (fst p) (snd p)) d1) (combine d dinv).
+  forallb (fun p => dclose 1 (dmul (fst p) (snd p)) d1) (combine d dinv).
 
 (** bounds with slack [sl] (a dyadic >= 0): lo*(1-sl) <= x <= hi*(1+sl) *)
 Definition within (sl lo hi x : dy) : bool :=
